@@ -46,8 +46,16 @@ class Tok(object):
             self.codes[k] = c
             cx = sym.ctx()
             pad = self.pad_cond(k)
-            alpha = z3.Or(*[c == ord(ch) for ch in _NUM_ALPHABET])
-            cx.add(z3.If(pad, c == 32, alpha))
+            if self.kind == 'd' and not self.left:
+                # integers: the characters are exactly known
+                j = self.n - 1 - k          # position from the right, 0 = units
+                x = self.val
+                ax = z3.If(x >= 0, x, -x)
+                digit = (ax / (10 ** j)) % 10
+                cx.add(c == z3.If(pad, 32, z3.If(z3.And(x < 0, self.L == j + 1), 45, 48 + digit)))
+            else:
+                alpha = z3.Or(*[c == ord(ch) for ch in _NUM_ALPHABET])
+                cx.add(z3.If(pad, c == 32, alpha))
         return c
 
 
@@ -712,6 +720,9 @@ def _token_read(s, want):
             cx.misaligned = True
             cx.note('truncated token read %s[%d:]' % (tok.name, a))
             return _garbage(want)
+    if all(c.tok.kind == 'd' and not c.tok.left for c in core if isinstance(c, TokCell)):
+        # integer renderings have exactly known characters: read by character code
+        return _charstr_read(s, want)
     cx.misaligned = True
     cx.note('misaligned read: %r' % (s,))
     return _garbage(want)
@@ -732,18 +743,39 @@ def _garbage(want):
 
 
 def _charstr_read(s, want):
-    """float()/int() of a string with symbolic *characters* (no tokens)."""
-    cells = s._resolved().cells
-    if 0 < builtins.len(cells) <= 18:
-        # fast path: every cell is a decimal digit on this path -> positional value
-        codes = [cell_code(c) for c in cells]
-        dig = z3.And(*[z3.And(e >= 48, e <= 57) for e in codes])
-        if sym.ctx().solve(z3.Not(dig))[0] == 'unsat':
-            n = builtins.len(codes)
-            v = z3.Sum(*[(e - 48) * (10 ** (n - 1 - k)) for k, e in enumerate(codes)]) if n > 1 else codes[0] - 48
-            return SInt(v) if want == 'int' else SReal(z3.ToReal(v))
-    from . import pyfloat_model
-    return pyfloat_model.read_cells(s, want)
+    """float()/int() of a string with symbolic *characters* (no tokens):
+    whitespace is stripped by forking, an optional sign, then digits only
+    (underscores, exponents and decimal points in symbolic characters are not
+    modelled: Unsupported if the cells could be such characters)."""
+    cx = sym.ctx()
+    t = s.strip()
+    t = t._resolved() if isinstance(t, SStr) else SStr(list(t))
+    cells = t.cells
+    if not cells:
+        raise ValueError('invalid literal (blank)')
+    sign = 1
+    first = cells[0]
+    if isinstance(first, str):
+        if first in '+-':
+            sign = -1 if first == '-' else 1; cells = cells[1:]
+    else:
+        c0 = cell_code(first)
+        if cx.branch(c0 == 45): sign = -1; cells = cells[1:]
+        elif cx.branch(c0 == 43): cells = cells[1:]
+    if not cells: raise ValueError('invalid literal (sign only)')
+    codes = [cell_code(c) for c in cells]
+    alldig = z3.And(*[z3.And(c >= 48, c <= 57) for c in codes])
+    if not cx.branch(alldig):
+        # could still be a valid literal with '_', '.', 'e' ... only if such characters are possible
+        other = z3.Or(*[z3.Or(c == 95, c == 46, c == 101, c == 69, z3.And(c >= 9, c <= 13), c == 32,
+                              c == 105, c == 73, c == 110, c == 78) for c in codes])
+        if cx.branch(other):
+            raise Unsupported('%s() of symbolic characters beyond [sign]digits' % want)
+        raise ValueError('invalid literal for %s() (symbolic)' % want)
+    val = z3.IntVal(0)
+    for c in codes: val = val * 10 + (c - 48)
+    val = val * sign
+    return SInt(val) if want == 'int' else SReal(z3.ToReal(val))
 
 
 def sfloat(x=0.0):
